@@ -749,9 +749,9 @@ class Builder(object):
                         key = (id(h), a)
                         if key not in hmemo:
                             hn = self.node('join', h, frame, what='handler', atom=a, handler=h, binds=h.name,
-                                           hkey=(frame.id, id(h)))
+                                           hkey=(frame.id, id(h), h.lineno))
                             hn.edge('next', self.block(h.body, hctx.w(cur_exc=a, cur_exc_name=h.name,
-                                                                      cur_handler=(frame.id, id(h))), frame))
+                                                                      cur_handler=(frame.id, id(h), h.lineno)), frame))
                             hmemo[key] = hn
                         return hmemo[key]
                 return hctx.exc[a]
